@@ -756,11 +756,11 @@ impl StreamsState {
                     // this stream
                     continue;
                 }
-                if fin_sent {
-                    stream.fin_pending = true;
-                }
                 if !stream.is_pending() {
                     self.pending.push_pending(id, stream.priority);
+                }
+                if fin_sent {
+                    stream.fin_pending = true;
                 }
                 stream.pending.retransmit_all_for_0rtt();
             }
